@@ -270,7 +270,7 @@ def nested_programs():
     yield [("cond", "s.n.x", ">", "10")], [(r[0], [ir for ir in r[1] if ir[0] > 10], r[2]) for r in R]
     yield [("cond", "s.n.x", ">", "10"), ("str", "n"), ("str", "y")], [[ir[1] for ir in r[1] if ir[0] > 10] for r in R]
     yield [("list", ["n", "i"]), ("cond", "s.n.y", "!=", '"a"'), ("str", "n")], [[ir for ir in r[1] if ir[1] != "a"] for r in R]
-    # clauses after a child selection (fixed f0144e1: resolved against the source rows)
+    # clauses after a child selection (fixed c409c34: resolved against the source rows)
     yield [("str", "n"), ("cond", "s.n.x", ">", "10")], [[ir for ir in r[1] if ir[0] > 10] for r in R]
     yield [("str", "n"), ("list", ["y"]), ("cond", "s.n.x", ">", "10")], [[(ir[1],) for ir in r[1] if ir[0] > 10] for r in R]
     yield [("str", "n"), ("str", "y"), ("cond", "s.n.x", ">", "10")], [[ir[1] for ir in r[1] if ir[0] > 10] for r in R]
